@@ -15,7 +15,7 @@ for p in "C01 C02 C06 C07 C08 C09 C10 C11 C17 C18 C19 C20".split():
         extra.append(f"{c['ids_under_controlled_thread_schedules']['schedules_run']} Miri schedules (ids)")
     if c.get("under_controlled_thread_schedules"):
         extra.append(f"{c['under_controlled_thread_schedules']['schedules_run']} Miri schedules (threads)")
-    res = "holds" if kf == 0 else f"KNOWN-FINDING x{kf}, nothing else"
+    res = "holds" if kf == 0 else f"KNOWN-FINDING x{kf}; nothing else"
     rows.append(f"| {p} | {c['systematic_cases']:,} + {c['seeded_random_runs']:,} | {c['distinct_nontrivial']:,} | {twin.get('seeded_random_runs', 0):,} seeded + systematic | {'; '.join(extra) or '-'} | {e['wall_s']:.0f} s | {res} |".replace(",", " "))
 print("| id | executions, main pass (systematic + seeded) | distinct non-trivial schedule signatures | optimised-build pass | further passes | wall | result on the current tree |")
 print("|----|------|------|------|------|------|------|")
